@@ -57,7 +57,7 @@ Theorem C26_refuted_download_trailing_dot :
   o_code (exec w_allowed fs (RDownload "/allowed/link")) = 1%N /\
   escapes w_allowed fs (RDownload "/allowed/link/.") = true /\
   escapes w_allowed fs (RDownload "/allowed/link/") = true /\
-  o_payload (exec w_allowed fs (RDownload "/allowed/link/.")) = "<directory>".
+  o_payload (exec w_allowed fs (RDownload "/allowed/link/.")) = "<directory>:".
 Proof. exact refuted_download_trailing_dot_proof. Qed.
 Print Assumptions C26_refuted_download_trailing_dot.
 
@@ -109,7 +109,11 @@ Theorem C26_source_facts :
      ([normalize_for_check]), the operations use filepath.Clean of the request ([used_path]) *)
   gen_normalize_calls = ["norm.NFC.String"; "filepath.Clean"] /\
   gen_used_path_require = "filepath.Clean(path)" /\ gen_used_path_upload = "filepath.Clean(path)" /\
-  gen_used_path_download = "filepath.Clean(path)" /\
+  gen_used_path_download = "filepath.Clean(path)" /\ gen_used_path_download_at_offset = "filepath.Clean(path)" /\
+  (* the download check reads nothing of the request but its path (is_directory, compress, offset
+     select entry points, not checks); no request can change the policy ([xexec] takes it as an argument) *)
+  gen_download_validation_meta_fields = ["Path"] /\ gen_upload_validation_meta_fields = ["IsDirectory"; "Size"] /\
+  gen_policy_writes = 0%N /\ gen_policy_reslices = 0%N /\
   (* matching respects component boundaries in every pattern branch ([under_prefix] = component prefix) *)
   gen_allowed_under_prefix_calls = 2%N /\ gen_allowed_raw_prefix_calls = 0%N /\ gen_allowed_match_calls = 2%N /\
   gen_recursive_glob_uses_under_prefix = true /\ gen_under_prefix_appends_separator = true.
